@@ -36,9 +36,12 @@ PROPS = {
             'crash-point invariant of write_smtlib_to_file over a ghost '
             'file system; interrupt handlers write nothing'),
     'C07': ('contracts.c07', 'exploration',
-            'renderers vs reference reader and re-parse, bounded'),
-    'C08': ('contracts.c08', 'exploration',
-            'parser vs reference reader, exhaustive over class strings'),
+            'stack renderers: ghost denotation of the work list (unbounded); '
+            'pretty printer and re-parse bounded'),
+    'C08': ('contracts.c08', 'proof',
+            'scanner: loop invariants + per-iteration reader step over an '
+            'array-modelled text; exhaustive comparison with a reference '
+            'reader over class strings as bounded complement'),
     'C14': ('contracts.c14', 'proof',
             'option actions step contracts, registry, get_mutators, pass '
             'construction, theory detection'),
